@@ -122,6 +122,7 @@ Definition prop_idxser (input obs : val) : val :=
   let rr := vnth 5 obs in
   let perms := vL (vnth 6 obs) in
   let flat := vnth 0 (vnth 7 obs) in
+  let iiga := vnth 1 (vnth 7 obs) in
   if negb (reported =? blen canon) then fail "reported-length-differs-from-bytes-written"
   else if negb (is_tag (vnth 0 rr) "ok") then fail "roundtrip-read-failed"
   else if negb (vN (vnth 1 rr) =? blen trailer) then fail "roundtrip-consumed-wrong-byte-count"
@@ -132,6 +133,8 @@ Definition prop_idxser (input obs : val) : val :=
   then fail "lookup-differs-from-record-multiset"
   else if negb (forallb (fun p => bytes_eqb (vB p) canon) perms) then fail "serialization-depends-on-load-order"
   else if negb (val_eqb flat (VB canon)) then fail "flattened-insertion-index-differs-from-loaded-index"
+  else if negb (val_eqb iiga (VL (map (fun q => v_offs (spec_offsets_digest rs (snd (v_key q)))) qs)))
+  then fail "insertion-index-lookup-not-in-insertion-order"
   else if negb (match raw with [] => true | _ => bytes_eqb raw canon end)
   then fail "bytes-differ-without-equal-digests"
   else match idx_read canon with
